@@ -202,18 +202,21 @@ Crash ==
 \* Initial refresh: an existing cache file is used whatever its age; a missing
 \* one is downloaded (possible only when the network is up).
 Load(l, up) == IF disk[l] # 0 THEN disk[l] ELSE IF up THEN remote[l] ELSE 0
+\* outcome of a start: [ok, served, disk]
+RestartResult(up) ==
+    LET ld == [l \in Lists |-> Load(l, up)]
+        mand == Lists \ RLs
+        startOK == /\ \A l \in mand : ld[l] > 0
+                   /\ ("sidx" \in Lists /\ D("svc_strict") /\ ld["sidx"] > 0 => ld["sidx"] \notin svcBad)
+        dropped(l) == l \in RLs /\ l = Victim /\ ld["ridx"] > 0 /\ ld["ridx"] \in ownBad
+    IN IF startOK
+       THEN [ok |-> TRUE,
+             served |-> [l \in Lists |-> IF dropped(l) THEN 0 ELSE ld[l]],
+             disk |-> [l \in Lists |-> IF dropped(l) THEN disk[l] ELSE ld[l]]]
+       ELSE [ok |-> FALSE, served |-> served, disk |-> disk]
 Restart(up) ==
     /\ ~alive
-    /\ LET ld == [l \in Lists |-> Load(l, up)]
-           mand == Lists \ RLs
-           startOK == /\ \A l \in mand : ld[l] > 0
-                      /\ ("sidx" \in Lists /\ D("svc_strict") /\ ld["sidx"] > 0 => ld["sidx"] \notin svcBad)
-           dropped(l) == l \in RLs /\ l = Victim /\ ld["ridx"] > 0 /\ ld["ridx"] \in ownBad
-       IN IF startOK
-          THEN /\ alive' = TRUE
-               /\ served' = [l \in Lists |-> IF dropped(l) THEN 0 ELSE ld[l]]
-               /\ disk' = [l \in Lists |-> IF dropped(l) THEN disk[l] ELSE ld[l]]
-          ELSE /\ alive' = FALSE /\ served' = served /\ disk' = disk
+    /\ LET r == RestartResult(up) IN alive' = r.ok /\ served' = r.served /\ disk' = r.disk
     /\ phase' = "start"
     /\ prev' = served' /\ dprev' = disk'
     /\ fault' = NoFaults
